@@ -71,12 +71,33 @@ def congruence(ex):
     return out
 
 
-def quotient_equalities(ex):
+def reachable_quots(ex, exprs):
+    """ids of the quotient variables occurring in exprs, transitively through their definitions"""
+    out = set()
+    todo = list(exprs)
+    seen = set()
+    while todo:
+        t = todo.pop()
+        if not isinstance(t, z3.ExprRef) or t.get_id() in seen:
+            continue
+        seen.add(t.get_id())
+        qi = ex.quots.get(t.get_id())
+        if qi is not None:
+            out.add(t.get_id())
+            todo.extend([x for x in qi if isinstance(x, z3.ExprRef)])
+        todo.extend(t.children())
+    return out
+
+
+def quotient_equalities(ex, relevant=None):
     """derived equalities between quotient variables of the executor: q1 = a1/b1 and q2 = a2/b2 are equal
     when a1*b2 - a2*b1 vanishes identically (after substituting the equalities already found);
     sound on every path (divisors are non-zero there) and turns nested quotients of scaled
     arguments into syntactic identities for the solver"""
     items = [(qid, ab) for qid, ab in ex.quots.items()]
+    if relevant is not None:
+        keep = reachable_quots(ex, relevant)
+        items = [(qid, ab) for qid, ab in items if qid in keep]
     qvars = {}
     for (k, v) in ex.leaf_memo.items():
         if isinstance(k, tuple) and k and k[0] == 'div' and isinstance(v, z3.ExprRef):
